@@ -33,3 +33,23 @@ pub(crate) fn push(item: TraceItem) {
 pub fn take_trace() -> Vec<TraceItem> {
     TRACE.with(|t| core::mem::take(&mut *t.borrow_mut()))
 }
+
+/// Appends one line to the file named by the environment variable `VAPORETTO_VERIF_DUMP`, if it
+/// is set: the arguments a caller (e.g. the `train` tool) hands to the trainer, so that what a
+/// tool feeds into the library can be compared with what its input files say.
+pub(crate) fn dump_line(line: &str) {
+    use std::io::Write;
+    if let Some(path) = std::env::var_os("VAPORETTO_VERIF_DUMP") {
+        if let Ok(mut f) = std::fs::OpenOptions::new().create(true).append(true).open(path) {
+            let _ = writeln!(f, "{line}");
+        }
+    }
+}
+
+/// `<hex of the sentence in partial-annotation form> <n_tags>`
+pub(crate) fn describe_sentence(s: &crate::Sentence) -> String {
+    let mut buf = String::new();
+    s.write_partial_annotation_text(&mut buf);
+    let hex: String = buf.bytes().map(|b| std::format!("{b:02x}")).collect();
+    std::format!("{hex} {}", s.n_tags())
+}
